@@ -55,7 +55,7 @@ MCEntrySeq == <<
 MCEntries == {MCEntrySeq[i] : i \in 1..Len(MCEntrySeq)}
 \* quick tier: the entries that carry a clause each (exact, whole-label wildcard, the D13 poison, the
 \* D14 capitalised ACE prefix, a one-label wildcard that globs "[v6]", IP text in a DNS entry, two IP values, a non-identity)
-MCEntriesQ == {DNS(<<La, Lb>>), DNS(<<Lstar, Lb>>), DNS(<<L2star, Lb>>), DNS(<<LXNstar, Lb>>), DNS(<<Lstar>>),
+MCEntriesQ == {DNS(<<La, Lb>>), DNS(<<Lstar, Lb>>), DNS(<<L2star, Lb>>), DNS(<<LXNstar, Lb>>), DNS(<<Lstar>>), DNS(<<La, Lstar>>),
                DNS(T1wild), IP(1, "plain"), IP(2, "alt"), OtherEntry}
 MCHostSeq == <<
     HD(<<La, Lb>>), HD(<<LA, <<"B">> >>), HD(<<Lb, Lb>>), HD(<<Lab, Lb>>), HD(<<La, La>>), HD(<<Lxna, Lb>>),
